@@ -621,11 +621,15 @@ pub fn run(ctx: &mut Ctx) {
         "rule sets whose gaps interact with another transition (transitions closer than 3 days) are excluded by construction; the one exception is the double-fallback class (two backward changes whose repeated stretches intersect: three candidates, no skipped time)".into(),
     ];
     ctx.run_prop(&Sub, &case, ctx.tier.pick(600_000, 20_000_000));
+    // the reading printed by to-string with rounding options is the reading of the *rounded* instant (date-time and
+    // offset both): C07's rule-zone string cases, whose only transition sits on the upper neighbouring multiple
+    ctx.run_prop(&crate::props::c07::PubSub, &crate::props::c07::zoned_rule_string_case, ctx.tier.pick(100_000, 3_000_000));
 }
 
 pub fn replay(ctx: &mut Ctx, sub: &str, case: &Value) -> bool {
     match sub {
         "convert" => ctx.replay_case(&Sub, case),
+        "public" => ctx.replay_case(&crate::props::c07::PubSub, case),
         _ => false,
     }
 }
